@@ -192,6 +192,12 @@ func checkRoundTrip(c *core.Child, i uint64, r *core.Rand, w rc.W) {
 				bad("Decode yields a different value", map[string]any{"got": got.String()})
 			}
 		}
+		// (3b) the same over a ReaderAt that reports io.EOF together with the last bytes
+		if v, err := binary.Default.Decode(wb.EagerAt{B: ref}, wire.Type(w.T)); err != nil {
+			bad("Decode over a ReaderAt that returns io.EOF with the last bytes rejected a spec encoding: "+err.Error(), nil)
+		} else if got, err := wb.FromWire(v); err != nil || !rc.Equal(got, w) {
+			bad(fmt.Sprintf("Decode over a ReaderAt that returns io.EOF with the last bytes yields a different value (err=%v)", err), nil)
+		}
 		// EvaluateValue releases the lazy containers it walks, so it gets its own
 		// decode and the value is not touched afterwards.
 		if ve, err := binary.Default.Decode(bytes.NewReader(ref), wire.Type(w.T)); err == nil {
@@ -219,6 +225,9 @@ func checkRoundTrip(c *core.Child, i uint64, r *core.Rand, w rc.W) {
 		// (5) stream reader under a chunking, trailing junk must not be consumed
 		class := int(i % wb.NumChunkings)
 		in2 := append(append([]byte{}, ref...), 0xAA, 0xBB, 0xCC)
+		if class == wb.ChunkEagerEOF {
+			in2 = ref // the point of this class is the read that ends exactly at the end
+		}
 		cr := wb.NewChunkReader(in2, class, r.Uint64())
 		sr := binary.Default.Reader(cr)
 		budget := 1 << 22
